@@ -13,23 +13,25 @@ CLAIM = {
     "gens": [],
     "category": "proof",
     "text": ("Coq theorems over an executable model of StreamDecoder (buf/scanp/scanned/err, More/peek/scan/refill/readMore/realloc, "
-             "try_skip loop over a model of native skip_one_fast, inner Decoder.Decode, slide/recycle, setErr, Buffered, InputOffset) with the "
-             "Reader as an oracle list of (chunk, optional error) incl. empty reads and error-with-data: for every stream whose top-level "
-             "values are self-delimiting (objects, arrays, strings, literals; guard `good_values`, a computable check of the bytes alone) "
-             "EVERY chunking, buffer size and final condition yields exactly the values of the value-by-value specification followed by "
-             "the reader's final condition unchanged (stream_chunk_independent_partial, reader_error_after_values_partial); the framing of "
-             "self-delimiting values is prefix-stable (selfdelim_framing_stable); a Decode that returns a value consumed >= 1 byte for every "
-             "state/reader (decode_progress). Full strength is REFUTED with witnesses replayed on the real code: top-level numbers are split / "
-             "swallowed / rejected depending on the chunking, malformed or truncated tails end with the reader's final condition (clean io.EOF), "
-             "a pending ']' or '}' makes Decode return nil for ever. StreamEncoder.Encode over a Writer oracle: every short-write pattern delivers "
-             "Marshal's bytes (+ newline when each Write accepts >= 1 byte), returned errors are the Writer's, SetIndent path; refuted: the "
-             "newline's Write error / short write is dropped. Model tied to /repo by running the same reader/writer oracles (all compositions of "
-             "short streams, random cuts, both SIMD variants) through the real code, plus the raw skip_one_fast blob against its model; "
-             "property oracle independent of the model: encoding/json.Decoder on the unchunked bytes."),
-    "note": ("Trusted: Coq kernel + vm_compute (witnesses), extraction, Go harness, encoding/json as oracle. Tied by differential runs only (not proved): "
-             "native skip_one_fast blob = Skip.skip_one_fast, Decoder.Decode(&interface{}) accept/first-value = Json1.inner_decode, "
+             "decodeNumber/consume, try_skip loop over a model of native skip_one_fast, inner Decoder.Decode, setErr, Buffered, InputOffset) "
+             "with the Reader as an oracle list of (chunk, optional error) incl. empty reads and error-with-data. For every stream passing "
+             "the guard `good_values` (a computable check of the bytes and the final condition alone: top-level numbers with a delimited run "
+             "of number bytes, objects/arrays/strings/literals that the fast skipper frames where the reference scanner ends them; tail = white "
+             "space, a byte that cannot start a value, a framed value the decoder rejects, a truncated self-delimiting value) EVERY chunking, "
+             "buffer size and final condition yields exactly the values and the terminal condition of the value-by-value specification: io.EOF, "
+             "the reader's error unchanged after the values, or an error for malformed/truncated trailing data "
+             "(stream_chunk_independent_partial); framing of self-delimiting values is prefix-stable and decodeNumber stops after the run of "
+             "number bytes whatever the cuts; full strength for all states/readers: a returned value consumed >= 1 byte, nil-without-value is "
+             "never returned, errors are sticky. StreamEncoder.Encode over a Writer oracle, full strength on the plain path: every short-write "
+             "pattern delivers Marshal ++ newline, the first failing Write (incl. the newline's) is returned, nil <=> all delivered. Full "
+             "strength over ALL streams is refuted by one witness (number followed by number bytes up to a reader failure). Model tied to /repo "
+             "by running the same reader/writer oracles (all compositions of short streams, random cuts, both SIMD variants) through the real "
+             "code, plus the raw skip_one_fast blob against its model; property oracle independent of the model: encoding/json.Decoder on the "
+             "unchunked bytes. The pre-fix defects (repaired in /repo 005ce23, 79f3366, 3d2189e) stay as regression witnesses in corpus/C17."),
+    "note": ("Trusted: Coq kernel + vm_compute (witnesses, examples), extraction, Go harness, encoding/json as oracle. Tied by differential runs only "
+             "(not proved): native skip_one_fast blob = Skip.skip_one_fast, Decoder.Decode(&interface{}) accept/first-value/Pos = Json1.inner_decode, "
              "bufPool capacity = option.DefaultDecoderBufferSize. The guard's clause 'fast skipper frames where the reference scanner ends' "
-             "is checked per stream by computation, not proved for all valid JSON."),
+             "is evaluated per stream, not proved for all valid JSON."),
     "technique": "Coq proof over an executable model of StreamDecoder/StreamEncoder with reader/writer oracles + exhaustive-chunking correspondence + encoding/json.Decoder oracle",
 }
 
@@ -160,7 +162,7 @@ def run_variant(ctx, hb, mexe, work, tag, env_extra, args, stats, findings):
                     why = "SPEC"
                 if len(fm) > 4 and fm[4] == "G1":
                     stats["guard_holds"] += 1
-                    if fi[4] not in ("ok", "skip"):
+                    if fi[4] not in ("ok", "skip", "skip-ctl"):
                         why = why or ("the guard of C17_stream_chunk_independent_partial holds for this stream, yet the implementation "
                                       "does not produce the specified values (" + fi[4] + ")")
             prop = fi[4]
